@@ -39,6 +39,92 @@ def _arg0(call, name):
     return src(v) if v is not None else "<missing>"
 
 
+_FLIP = {"<": ">", ">": "<", "=": "="}
+_OPS = {ast.Lt: {"<"}, ast.LtE: {"<", "="}, ast.Gt: {">"}, ast.GtE: {">", "="}, ast.Eq: {"="}, ast.NotEq: {"<", ">"}}
+
+
+def _cmp(test):
+    if isinstance(test, ast.Compare) and len(test.ops) == 1 and type(test.ops[0]) in _OPS:
+        return src(test.left), set(_OPS[type(test.ops[0])]), src(test.comparators[0])
+    return None
+
+
+def _unit_bound(chk, f):
+    """Ordering-only abstract walk of every path: `rel` = the orderings of (coin, price) still possible, `ub` = names the unit is known
+    not to exceed.  At the division the unit must be bounded by both."""
+    CU = "self.credit_unit"
+    coin = [src(t) for st in ast.walk(f.node) if isinstance(st, ast.Assign) and "min(" in src(st.value) and "switches" in src(st.value) for t in st.targets]
+    price = [src(st.targets[0]) for st in ast.walk(f.node) if isinstance(st, ast.Assign) and "['pricing_tiers'][0]['price']" in src(st.value)
+             and src(st.targets[0]) not in coin]
+    chk.need(bool(coin) and bool(price), "UNIT-8", "smallest coin value and game price are computed", f)
+    m, p = coin[0], price[0]
+    cfg = f.cfg()
+    div = [n for n in cfg.nodes if n.kind == "stmt" and isinstance(n.ast, ast.Assign) and src(n.ast.targets[0]) == "self.credit_units_per_game"]
+    chk.need(len(div) == 1, "UNIT-8", "units per game computed once", f)
+    v = div[0].ast.value
+    ok = isinstance(v, ast.Call) and src(v.func) == "int" and isinstance(v.args[0], ast.BinOp) and isinstance(v.args[0].op, ast.Div) and \
+        src(v.args[0].left) == p and src(v.args[0].right) == CU
+    chk.ob("UNIT-8", "units per game = game price / credit unit", ok, f.where(div[0].ast), detail=src(v), construct=f.ident, text="units per game formula")
+
+    def bounds(e):
+        if isinstance(e, ast.Name):
+            return {e.id}
+        if isinstance(e, ast.BinOp) and isinstance(e.op, ast.Sub) and isinstance(e.left, ast.Name):
+            return {e.left.id}          # coin values and prices are positive
+        if isinstance(e, ast.Call) and src(e.func) == "min":
+            out = set()
+            for a in e.args:
+                out |= bounds(a)
+            return out
+        return set()
+
+    n_paths, bad = 0, []
+    for path in cfg.paths(ends=[div[0].id]):
+        rel, ub, assigned, feasible = {"<", "=", ">"}, set(), False, True
+        for nid in path:
+            n = cfg.nodes[nid]
+            if n.kind == "branch" and n.tag not in ("iter", "exhausted"):
+                c = _cmp(n.ast)
+                if not c:
+                    continue
+                l, ops, r = c
+                if not n.value:
+                    ops = {"<", "=", ">"} - ops
+                if {l, r} == {m, p}:
+                    if l == p:
+                        ops = {_FLIP[o] for o in ops}
+                    rel &= ops
+                    if not rel:
+                        feasible = False
+                        break
+                elif CU in (l, r) and (l if r == CU else r) in (m, p):
+                    x = l if r == CU else r
+                    if r == CU:
+                        ops = {_FLIP[o] for o in ops}
+                    if ops <= {"<", "="}:       # unit <= x
+                        ub.add(x)
+            elif n.kind == "stmt" and isinstance(n.ast, ast.Assign) and any(src(t) == CU for t in n.ast.targets):
+                ub, assigned = bounds(n.ast.value), True
+        if not feasible:
+            continue
+        n_paths += 1
+        if m in ub and rel <= {"<", "="}:
+            ub.add(p)
+        if p in ub and rel <= {">", "="}:
+            ub.add(m)
+        if not assigned or not {m, p} <= ub:
+            bad.append((sorted(rel), sorted(ub), assigned, path))
+    chk.expect(n_paths >= 5, "C20: credit-unit paths lost (%d)" % n_paths)
+    for rel, ub, assigned, path in bad[:3]:
+        chk.ob("UNIT-8", "the credit unit never exceeds the smallest coin nor the game price", False, f.where(),
+               detail="coin ? price in %s: unit %s; %s" % (rel, ("bounded only by %s" % ub) if assigned else "never computed",
+                                                        " -> ".join(cfg.fmt_path(path)[-5:])),
+               construct=f.ident, text="unit bound, ordering %s" % "".join(rel))
+    if not bad:
+        chk.ob("UNIT-8", "the credit unit never exceeds the smallest coin nor the game price (every ordering, %d paths)" % n_paths, True, f.where(),
+               construct=f.ident, text="unit bound")
+
+
 def check(chk):
     repo = chk.repo
     idx = get_index(repo)
@@ -266,6 +352,13 @@ def check(chk):
     chk.ob("UNIT-7", "credits do not expire during a game", rms >= {"'clear_fractional_credits'", "'clear_all_credits'"}, gs.where(), detail=str(rms),
            construct=gs.ident, text="expiry paused in game")
 
+    # ------------------------------------------------------------ UNIT-8
+    # the credit unit divides into both the smallest coin and the game price: on every path of _calculate_credit_units the unit is bounded
+    # by both (otherwise units-per-game = int(price / unit) becomes 0: gates always open, nothing deducted).  Orderings only - no arithmetic.
+    cu_f = cr.methods["_calculate_credit_units"]
+    chk.analysed(cu_f)
+    _unit_bound(chk, cu_f)
+
 
 def battery():
     from sa.battery import M
@@ -289,6 +382,10 @@ def battery():
         M("twin: log wording", CR, "            self.info_log(\"Max credits reached.\")", "            self.info_log(\"Max credits reached!\")", None),
         M("credit events still add credits in free play", CR, "        self.machine.events.remove_handler(self._credit_event_callback)\n", "", "TABLE-10"),
         M("service switch handler not remembered", CR, "            self._switch_handlers.append(self.machine.switch_controller.add_switch_handler_obj(\n                switch=switch,\n                callback=self._service_credit_callback))", "            self.machine.switch_controller.add_switch_handler_obj(\n                switch=switch,\n                callback=self._service_credit_callback)", "TABLE-10"),
+        M("unit clamped to the coin when the coin is dearer", CR, "            if self.credit_unit > price_per_game:\n                self.credit_unit = price_per_game\n", "            if self.credit_unit > min_currency_value:\n                self.credit_unit = min_currency_value\n", "UNIT-8"),
+        M("unit not clamped when the coin is cheaper", CR, "            if self.credit_unit > min_currency_value:\n                self.credit_unit = min_currency_value\n", "", "UNIT-8"),
+        M("units per game from the coin", CR, "int(price_per_game / self.credit_unit)", "int(min_currency_value / self.credit_unit)", "UNIT-8"),
+        M("twin: clamp via min()", CR, "            if self.credit_unit > price_per_game:\n                self.credit_unit = price_per_game\n", "            self.credit_unit = min(self.credit_unit, price_per_game)\n", None),
     ]
 
 
